@@ -1,9 +1,252 @@
-(* Properties/C06.v -- theorem statements for property C06 (placeholder, being filled in). *)
-From Verif Require Import Base.GoSem Css.Token Css.Tok.
-From Coq Require Import List NArith.
+(* Properties/C06.v -- CSS text is tokenized and parsed as CSS Syntax Level 3 prescribes.
+   Only statements, closed by `exact`, each followed by Print Assumptions.
+
+   Model: Css/Tok.v (tokenizer.go), Css/Parse.v (parser.go, nth.go) over the code
+   points of the input (valid UTF-8 = a list of Unicode scalar values, `scalars`).
+   Specification: Css/Syntax3Spec.v (sections 3.3, 4.3, 5.4.7-9, two-phase).
+   `tokenize true` / `fxp = true` is the code as repaired by the fix commits
+   (what Check/C06.v compares with /repo on every run); `tokenize false` is the
+   code as found. *)
+From Verif Require Import Base.GoSem Css.Token Css.Tok Css.Parse
+  Css.TokProofs Css.SpecProofs Css.BlocksProofs Css.ParseProofs Css.DeclSpec Css.DeclProofs
+  Css.NthSpec Css.NthProofs Css.PosProofs.
+From Verif Require Css.Syntax3Spec.
+From Coq Require Import List NArith ZArith.
 Import ListNotations.
 
+(* ------------------------------------------------------------------ totality *)
+(* Tokenize never panics and always terminates (both skip-comments modes, every
+   input, including invalid code points). *)
+Theorem C06_tokenize_total : forall (skip : bool) (s : list N),
+  exists ts, Tok.tokenize true skip s = Ok ts.
+Proof. exact tokenize_total. Qed.
+Print Assumptions C06_tokenize_total.
+
+(* The code as found violates it: isIdentStart reads tk.src[pos] unguarded
+   (tokenizer.go:586).  Witnesses "-", "#-", "@-", "1-" (replayed on Go: corpus/C06). *)
 Theorem C06_tokenize_total_refuted_before_fix :
-  exists s, tokenize false false s = Panic site_ident_esc.
-Proof. exists [45%N]. vm_compute. reflexivity. Qed.
+  Tok.tokenize false false [45%N] = Panic site_ident_esc /\
+  Tok.tokenize false false [35%N; 45%N] = Panic site_ident_esc /\
+  Tok.tokenize false false [64%N; 45%N] = Panic site_ident_esc /\
+  Tok.tokenize false false [49%N; 45%N] = Panic site_ident_esc.
+Proof. exact tokenize_orig_panics. Qed.
 Print Assumptions C06_tokenize_total_refuted_before_fix.
+
+(* every iteration of consumeValueList consumes at least one code point (the
+   termination measure) and never reaches the `case 0:` no-progress branch *)
+Theorem C06_iteration_progress : forall skip f endc p c r,
+  c <> 0%N -> (length (c :: r) < f)%nat ->
+  exists lx, lex1 true skip f endc p (c :: r) = Ok lx /\ lx <> LStuck /\
+             psuffix (lexed_rest lx) (c :: r).
+Proof. exact lex1_ok. Qed.
+Print Assumptions C06_iteration_progress.
+
+(* ------------------------------------------------------------------ model = specification *)
+(* blocks_spec: for every valid-UTF-8 text, Tokenize returns exactly the component
+   values CSS Syntax 3 assigns to it: token types, unescaped values, number
+   representation and type flag, units, hash type flag, EOF flags of strings /
+   urls, bad-string / bad-url, nesting of blocks and functions, unmatched closers,
+   EOF closing open blocks -- modulo the presentation map `norm` / `erase`
+   (documented in Css/Syntax3Spec.v: positions and whitespace text erased,
+   integer flag = type integer AND fits int64). Error recovery of a malformed token
+   is therefore exact: it consumes precisely the code points the specification
+   assigns to it. *)
+Theorem C06_blocks_spec : forall (skip : bool) (s : list N), scalars s ->
+  exists ts, Tok.tokenize true skip s = Ok ts /\
+             map Syntax3Spec.erase ts = Syntax3Spec.spec_tokenize skip s.
+Proof. exact blocks_spec. Qed.
+Print Assumptions C06_blocks_spec.
+
+(* one iteration of the implementation = "consume a token" (4.3.1) *)
+Theorem C06_consume_token_spec : forall skip f g endc p c r lx,
+  scalars (c :: r) -> c <> 0%N -> (length (c :: r) < f)%nat -> (length (c :: r) <= g)%nat ->
+  (endc = 0 \/ endc = 41 \/ endc = 93 \/ endc = 125)%N ->
+  lex1 true skip f endc p (c :: r) = Ok lx ->
+  lex_rel skip endc p (fst (Syntax3Spec.consume_token g (c :: r)))
+                      (snd (Syntax3Spec.consume_token g (c :: r))) lx.
+Proof. exact lex1_spec. Qed.
+Print Assumptions C06_consume_token_spec.
+
+(* per-consumer lemmas (reused by C20) *)
+Theorem C06_consume_escape_spec : forall r, scalars r ->
+  Syntax3Spec.consume_escaped r = (write_rune (fst (consume_escape r)), snd (consume_escape r)).
+Proof. exact consume_escape_spec. Qed.
+Print Assumptions C06_consume_escape_spec.
+
+Theorem C06_consume_ident_spec : forall f g rest v r', scalars rest -> (length rest <= g)%nat ->
+  consume_ident f rest = Ok (v, r') -> Syntax3Spec.ident_sequence g rest = (v, r').
+Proof. exact consume_ident_spec. Qed.
+Print Assumptions C06_consume_ident_spec.
+
+Theorem C06_consume_string_spec : forall f g q rest v a e r', scalars rest -> (length rest <= g)%nat ->
+  quoted_loop f q rest = Ok (v, a, e, r') ->
+  exists v' o, Syntax3Spec.string_body g q rest = (v', o, r') /\
+    ((a = true /\ v' = v /\ ((e = 0 /\ o = 0) \/ (e = errEofInString /\ o = 1))) \/
+     (a = false /\ e = errBadString /\ o = 2))%N.
+Proof. exact quoted_loop_spec. Qed.
+Print Assumptions C06_consume_string_spec.
+
+Theorem C06_consume_url_spec : forall f g p r2 v e r3,
+  scalars r2 -> (length r2 < f)%nat -> (length r2 < g)%nat -> url_is_unquoted r2 = true ->
+  consume_url true f p r2 = Ok (v, e, r3) ->
+  tok_out (fst (Syntax3Spec.consume_url g r2)) (snd (Syntax3Spec.consume_url g r2))
+          (LTok (opt_list v ++ opt_list e) r3).
+Proof. exact consume_url_spec. Qed.
+Print Assumptions C06_consume_url_spec.
+
+(* numberRe (hand scanner) accepts exactly "starts with a number" and returns the
+   representation / type flag of "consume a number" *)
+Theorem C06_consume_number_spec : forall rest,
+  match scan_number rest with
+  | Some (repr, r1) =>
+      Syntax3Spec.starts_number rest = true /\
+      exists integer, Syntax3Spec.consume_number rest = (repr, integer, r1) /\
+                      repr_is_int repr = Syntax3Spec.nflag repr integer
+  | None => Syntax3Spec.starts_number rest = false
+  end.
+Proof. exact scan_number_spec. Qed.
+Print Assumptions C06_consume_number_spec.
+
+(* ------------------------------------------------------------------ error recovery of declarations and rules is exact *)
+(* A declaration -- valid or malformed -- ends exactly at its ";": whatever token
+   list `a` precedes the ";" and whatever `b` follows, the result is the result for
+   `a` followed by the result for `b`.  (Holds for the code as found and repaired.) *)
+Theorem C06_decl_list_compositional : forall fxp (skip_comments skip_ws : bool) (a b : list token) (p : pos),
+  exists oa ob,
+    parse_declaration_list fxp a skip_comments skip_ws = Ok oa /\
+    parse_declaration_list fxp b skip_comments skip_ws = Ok ob /\
+    parse_declaration_list fxp (a ++ TLiteral p s_semicolon :: b) skip_comments skip_ws = Ok (oa ++ ob).
+Proof. exact decl_list_compositional. Qed.
+Print Assumptions C06_decl_list_compositional.
+
+(* A qualified rule / at-rule -- or the error for an unfinished one -- ends exactly
+   at its {} block. *)
+Theorem C06_rule_list_compositional : forall (skip_comments skip_ws : bool) (a b : list token) (p : pos) (args : list token),
+  exists oa ob,
+    parse_rule_list (a ++ [TCurly p args]) skip_comments skip_ws = Ok oa /\
+    parse_rule_list b skip_comments skip_ws = Ok ob /\
+    parse_rule_list (a ++ TCurly p args :: b) skip_comments skip_ws = Ok (oa ++ ob).
+Proof. exact rule_list_compositional. Qed.
+Print Assumptions C06_rule_list_compositional.
+
+Theorem C06_stylesheet_compositional : forall (skip_comments skip_ws : bool) (a b : list token) (p : pos) (args : list token),
+  exists oa ob,
+    parse_stylesheet (a ++ [TCurly p args]) skip_comments skip_ws = Ok oa /\
+    parse_stylesheet b skip_comments skip_ws = Ok ob /\
+    parse_stylesheet (a ++ TCurly p args :: b) skip_comments skip_ws = Ok (oa ++ ob).
+Proof. exact stylesheet_compositional. Qed.
+Print Assumptions C06_stylesheet_compositional.
+
+(* Text level (NOT proved; the token-level theorems above are): if appending ";" to
+   the text s1 yields the tokens of s1 followed by the ";" token (no construct of s1
+   is left open and its last token cannot absorb the ";"), then the same holds with
+   any continuation s2.  Together with C06_decl_list_compositional this is "a
+   malformed declaration never swallows the following one" on texts. *)
+Definition C06_text_compositional_statement : Prop :=
+  forall s1 s2 : list N, scalars s1 -> scalars s2 ->
+    Css.Syntax3Spec.spec_tokenize false (s1 ++ [59%N]) =
+      Css.Syntax3Spec.spec_tokenize false s1 ++ [TLiteral Css.Syntax3Spec.p0 [59%N]] ->
+    Css.Syntax3Spec.spec_tokenize false (s1 ++ 59%N :: s2) =
+      Css.Syntax3Spec.spec_tokenize false s1 ++ TLiteral Css.Syntax3Spec.p0 [59%N] :: Css.Syntax3Spec.spec_tokenize false s2.
+
+Theorem C06_parsers_total :
+  (forall fxp l sc sw, exists o, parse_declaration_list fxp l sc sw = Ok o) /\
+  (forall l sc sw, exists o, parse_rule_list l sc sw = Ok o) /\
+  (forall l sc sw, exists o, parse_stylesheet l sc sw = Ok o).
+Proof. exact (conj parse_declaration_list_total (conj parse_rule_list_total parse_stylesheet_total)). Qed.
+Print Assumptions C06_parsers_total.
+
+(* ------------------------------------------------------------------ declarations and !important (5.4.6) *)
+(* value and important flag: the last two non-whitespace(/comment) tokens are "!" and
+   an ident matching "important" ASCII case-insensitively *)
+Theorem C06_important_spec : forall rest,
+  let a := decl_loop true (mkD SValue 0 false false) 0 rest in
+  let imp := match d_state a with SImportant => true | _ => false end in
+  ((if imp then firstn (d_bang a) rest else rest), imp) = spec_important rest.
+Proof. exact important_spec. Qed.
+Print Assumptions C06_important_spec.
+
+(* the code as found missed it after another "!" (and after another !important) *)
+Theorem C06_important_spec_refuted_before_fix :
+  let p := mkPos 0 0 in
+  let v := [TIdent p [120%N]; TLiteral p [33%N]; TLiteral p [33%N]; TIdent p s_important] in
+  d_state (decl_loop false (mkD SValue 0 false false) 0 v) = SValue /\ snd (spec_important v) = true.
+Proof. exact important_orig_deviates. Qed.
+Print Assumptions C06_important_spec_refuted_before_fix.
+
+(* name, colon, value, flag -- for values without a top-level {} block (that rule
+   belongs to the css-syntax draft, not to Level 3) *)
+Theorem C06_declaration_spec : forall first rest nested, no_curly rest ->
+  match spec_declaration first rest with
+  | DOk n v i => exists p, parse_declaration true first rest nested = CDeclaration p n v i
+  | DError => exists p, parse_declaration true first rest nested = CParseError p errInvalid
+  end.
+Proof. exact declaration_spec. Qed.
+Print Assumptions C06_declaration_spec.
+
+(* ------------------------------------------------------------------ <an+b> (section 6) *)
+(* On token lists as the tokenizer produces them (identifiers and number
+   representations not empty), ParseNth recognises exactly the <an+b> grammar and
+   returns its (A, B); integer values are those the implementation attributes to
+   the tokens (`num_int`, through float32) ... *)
+Theorem C06_nth_spec : forall ts, Forall wf_tok ts -> parse_nth ts = Ok (spec_anb num_int ts).
+Proof. exact nth_spec. Qed.
+Print Assumptions C06_nth_spec.
+
+(* ... which are the mathematical values below 2^24 *)
+Theorem C06_nth_integer_value_exact : forall repr z,
+  repr_int repr = Some z -> (- 2 ^ 24 < z < 2 ^ 24)%Z -> num_int repr = z.
+Proof. exact num_int_exact. Qed.
+Print Assumptions C06_nth_integer_value_exact.
+
+Theorem C06_tokenize_wf : forall skip s ts, Tok.tokenize true skip s = Ok ts -> Forall wf_tok ts.
+Proof. exact tokenize_wf. Qed.
+Print Assumptions C06_tokenize_wf.
+
+(* ParseNth(Tokenize(css)) never panics and is the grammar *)
+Theorem C06_parse_nth_string_spec : forall s,
+  exists ts, Tok.tokenize true true s = Ok ts /\ parse_nth_string true s = Ok (spec_anb num_int ts).
+Proof. exact parse_nth_string_spec. Qed.
+Print Assumptions C06_parse_nth_string_spec.
+
+(* on arbitrary token lists the code can panic (ident[0] on an empty identifier, nth.go:55) *)
+Theorem C06_parse_nth_total_refuted_on_arbitrary_tokens :
+  parse_nth [TIdent (mkPos 1 1) []] = Panic site_nth_ident0.
+Proof. exact parse_nth_empty_ident_panics. Qed.
+Print Assumptions C06_parse_nth_total_refuted_on_arbitrary_tokens.
+
+(* ------------------------------------------------------------------ source positions *)
+(* pos_of pre = (1 + newlines in pre, 1 + UTF-8 BYTES after the last newline of pre):
+   the position of the code point that follows the prefix `pre` of the preprocessed
+   source.  For every iteration of consumeValueList started in a state satisfying the
+   invariant (the initial state does): the position is that of the iteration's first
+   code point; every token and block the iteration creates carries it; the invariant
+   holds again for the next iteration.  (Columns are bytes, as in Go; the whitespace
+   token that follows "url(" before a quoted string starts at its first code point.)
+   Partial in one respect: stated per iteration, not as a predicate over the
+   resulting tree. *)
+Theorem C06_positions_spec : forall skip f endc src st p st1 lx,
+  pos_inv src st -> nonul (l_rest st) -> (length (l_rest st) < f)%nat -> l_rest st <> [] ->
+  update_line st = (p, st1) ->
+  lex1 true skip f endc p (l_rest st) = Ok lx ->
+  (exists pre, src = pre ++ l_rest st /\ p = pos_of pre) /\
+  match lx with
+  | LTok ts _ | LReturn ts _ => Forall (fun t => token_pos t = p) ts
+  | _ => True
+  end /\
+  (forall o r' args, lx = LOpen o r' -> token_pos (mk_block o p args) = p) /\
+  pos_inv src (set_rest st1 (lexed_rest lx)).
+Proof. exact positions_spec. Qed.
+Print Assumptions C06_positions_spec.
+
+Theorem C06_positions_initial : forall src, pos_inv src (init_state src).
+Proof. exact init_pos_inv. Qed.
+Print Assumptions C06_positions_initial.
+
+Theorem C06_first_token_position : forall src p st1, update_line (init_state src) = (p, st1) -> p = mkPos 1 1.
+Proof. exact first_token_position. Qed.
+Print Assumptions C06_first_token_position.
+
+(* hypotheses are inhabited *)
+Example C06_scalars_inhabited : scalars [97; 233; 8364; 128512]%N.
+Proof. repeat constructor; vm_compute; intuition discriminate. Qed.
